@@ -220,7 +220,7 @@ def pool_copy(prop, lists, tier, akinds=('ae',), ops=COPY_OPS):
         for ak in akinds:
             for op in ops:
                 if op in ('OP_COPY_CTOR', 'OP_MOVE_CTOR', 'OP_SELF') and ak.endswith('-eq'): continue
-                obs.append(copy_ob(prop, lid, op, ak, ka=2, kb=(1 if tier == 'quick' else 2)))
+                obs.append(copy_ob(prop, lid, op, ak, ka=2, kb=(1 if tier == 'quick' or lid in TWO_SPAN else 2)))   # two-span lists: a second pre-state element of the target exceeds the obligation budget
     return dedup(obs)
 
 
